@@ -6,6 +6,10 @@
 // FileSystemLoader on a scratch directory, also inside the ChainLoader). After every Load/Render the result, the loaders' read counters and (for a missing name) the cache listing are
 // compared with a small reference state machine transcribed from the property statement.
 //
+// Variants whose registration API carries the suffix "+x" run over an extended alphabet: registration of
+// text identical to what the cache already holds, and content changes in L1 that do not come with a
+// newer timestamp (equal / older; with real files same length / different length).
+//
 //	phase A  every history over the alphabet up to the depth bound, no pruning (each history is
 //	         replayed on a fresh engine)
 //	phase B  breadth-first search over the reference states (version numbers and timestamps reduced to
@@ -19,6 +23,7 @@ import (
 	"os"
 	"path/filepath"
 	"sort"
+	"strconv"
 	"strings"
 	"time"
 
@@ -40,9 +45,15 @@ func newStats() *stats { return &stats{map[string]int{}, map[string]int{}} }
 type tsLoader struct { // L1: timestamp-aware
 	src map[string]string // what L1 holds (in the "fs" arrangement: a mirror of the files on disk)
 	mt  map[string]int64
-	st  *stats
-	fs  *twig.FileSystemLoader // "fs" arrangement: the real loader answers, this type only counts
+	// pad: a twig comment appended to the source ("+x" alphabet with real files only: the length of the
+	// file is controlled there; it renders as nothing). content = src + pad is what the loader holds
+	pad  map[string]string
+	flen map[string]int // length of the padded file
+	st   *stats
+	fs   *twig.FileSystemLoader // "fs" arrangement: the real loader answers, this type only counts
 }
+
+func (l *tsLoader) content(n string) string { return l.src[n] + l.pad[n] }
 
 func (l *tsLoader) Load(n string) (string, error) {
 	l.st.loads[n]++
@@ -50,8 +61,8 @@ func (l *tsLoader) Load(n string) (string, error) {
 	if l.fs != nil {
 		return l.fs.Load(n)
 	}
-	if s, ok := l.src[n]; ok {
-		return s, nil
+	if _, ok := l.src[n]; ok {
+		return l.content(n), nil
 	}
 	return "", fmt.Errorf("%w: %s (L1)", twig.ErrTemplateNotFound, n)
 }
@@ -76,9 +87,12 @@ func (l *tsLoader) GetModifiedTime(n string) (int64, error) {
 // scratch directories of this process ("fs" and "builtin" arrangements)
 var scratch string
 
-// scratchBase: a memory-backed directory when there is one (the histories create and remove a few
-// files each; on a disk file system that is most of the run time), the temporary directory otherwise.
+// scratchBase: the run's scratch directory (vlib.Scratch()); when there is none (replay mode) a
+// memory-backed directory if there is one, the temporary directory otherwise.
 func scratchBase() string {
+	if d := vlib.Scratch(); d != "" {
+		return d // the run's scratch directory: the parent removes it, also when a worker is killed
+	}
 	if os.Getenv("C15_SCRATCH_ON_DISK") == "" {
 		if fi, err := os.Stat("/dev/shm"); err == nil && fi.IsDir() {
 			if f, err := os.CreateTemp("/dev/shm", "c15-probe-*"); err == nil {
@@ -119,23 +133,56 @@ func scratchDir(sub string) string {
 
 const epoch = 1_000_000_000
 
-func (l *tsLoader) write(n string) { // mirror src/mt of one name to disk
+// onDisk: what this process has put into its scratch directory (nobody else writes there). A file
+// that already has the wanted content and modification time is left alone, a file that is not there
+// is not removed again: most histories start from the same files, and the file operations are most of
+// the cost of the arrangements with real files.
+type fileState struct {
+	content string
+	mt      int64
+}
+
+var onDisk = map[string]fileState{}
+
+func (l *tsLoader) write(n string) { // mirror src/pad/mt of one name to disk
 	if l.fs == nil {
 		return
 	}
 	path := filepath.Join(scratchDir("tpl"), n+".twig")
-	s, ok := l.src[n]
-	if !ok {
-		os.Remove(path)
+	have, there := onDisk[path]
+	if _, ok := l.src[n]; !ok {
+		if there {
+			os.Remove(path)
+			delete(onDisk, path)
+		}
 		return
 	}
-	if err := os.WriteFile(path, []byte(s), 0o644); err != nil {
-		panic(err)
+	want := fileState{l.content(n), l.mt[n]}
+	if there && have == want {
+		return
 	}
-	t := time.Unix(epoch+l.mt[n], 0)
+	onDisk[path] = fileState{content: "\x00 being written"} // should the write fail half-way: not what anybody wants
+	if !there || have.content != want.content {
+		// overwritten in place and cut to the new length afterwards: truncating an existing file to
+		// nothing and writing it again makes ext4 flush the data when the file is closed
+		f, err := os.OpenFile(path, os.O_WRONLY|os.O_CREATE, 0o644)
+		if err == nil {
+			if _, err = f.Write([]byte(want.content)); err == nil && len(have.content) != len(want.content) {
+				err = f.Truncate(int64(len(want.content)))
+			}
+			if e := f.Close(); err == nil {
+				err = e
+			}
+		}
+		if err != nil {
+			panic(err)
+		}
+	}
+	t := time.Unix(epoch+want.mt, 0)
 	if err := os.Chtimes(path, t, t); err != nil {
 		panic(err)
 	}
+	onDisk[path] = want
 }
 
 type plainLoader struct { // L2: no timestamps (mt is only reported in the "ts2" arrangement, through tsPlain)
@@ -186,6 +233,11 @@ const (
 	opRender // Engine.Render
 	opRenderInc
 	opTouch2 // newer timestamp in L2, same content ("ts2" arrangement only)
+	// the "+x" alphabet only:
+	opRegSame // register, under the name, text IDENTICAL to what the reference cache holds for it
+	opEq1     // new content in L1, SAME timestamp (with real files: same length)
+	opOld1    // new content in L1, timestamp OLDER than every timestamp so far (real files: same length)
+	opEqLen1  // real files only: new content of a DIFFERENT length in L1, same timestamp
 )
 
 type op struct {
@@ -194,7 +246,7 @@ type op struct {
 }
 
 func (o op) String() string {
-	names := [...]string{"cache0", "cache1", "reload0", "reload1", "dev0", "dev1", "reg", "modL1", "modL2", "touchL1", "delL1", "delL2", "load", "render", "renderinc", "touchL2"}
+	names := [...]string{"cache0", "cache1", "reload0", "reload1", "dev0", "dev1", "reg", "modL1", "modL2", "touchL1", "delL1", "delL2", "load", "render", "renderinc", "touchL2", "regsame", "eqL1", "oldL1", "eqlenL1"}
 	if o.n == "" {
 		return names[o.k]
 	}
@@ -215,8 +267,20 @@ var alphabet = []op{
 // alphabetOf: the arrangement with a timestamp-aware L2 has one more letter.
 var alphabetTS2 = append(append([]op{}, alphabet...), op{opTouch2, "n1"})
 
+// The "+x" alphabet (a variant dimension, so that the keys of the other variants are unchanged): a
+// registration whose text is identical to what the cache holds for the name, and content changes in
+// the timestamp-aware loader that do NOT come with a newer timestamp (equal, older; with real files
+// also: same length / different length).
+var alphabetX = append(append([]op{}, alphabet...), op{opRegSame, "n1"}, op{opEq1, "n1"}, op{opOld1, "n1"})
+var alphabetXFS = append(append([]op{}, alphabetX...), op{opEqLen1, "n1"})
+
 func alphabetOf(v variant) []op {
-	if v.l2ts() {
+	switch {
+	case v.ext() && v.realFS():
+		return alphabetXFS
+	case v.ext():
+		return alphabetX
+	case v.l2ts():
 		return alphabetTS2
 	}
 	return alphabet
@@ -238,10 +302,15 @@ type variant struct {
 	// "chainrev" the in-memory counterpart of chainfsrev (ChainLoader with L2 before L1)
 	Arr string
 	// Start: "empty" loaders; "seeded" n1 in L1 and L2, n2 in L2; "late" n1 only in the loader that is
-	// registered last, n2 in L2
+	// registered last, n2 in L2; "seededar" like seeded, and the engine starts with auto-reload ON
 	Start string
-	Reg   string // "str" RegisterString, "tpl" RegisterTemplate, "cmp" RegisterCompiledTemplate
+	// Reg: "str" RegisterString, "tpl" RegisterTemplate, "cmp" RegisterCompiledTemplate; with the suffix
+	// "+x" the history is over the extended alphabet (alphabetX)
+	Reg string
 }
+
+func (v variant) ext() bool   { return strings.HasSuffix(v.Reg, "+x") }
+func (v variant) api() string { return strings.TrimSuffix(v.Reg, "+x") }
 
 func (v variant) String() string { return v.Arr + "/" + v.Start + "/" + v.Reg }
 
@@ -265,7 +334,7 @@ type placed struct {
 // version numbers are handed out.
 func (v variant) startContents() []placed {
 	switch v.Start {
-	case "seeded":
+	case "seeded", "seededar":
 		return []placed{{1, "n1"}, {2, "n1"}, {2, "n2"}}
 	case "late":
 		if v.l2first() {
@@ -290,6 +359,7 @@ type entry struct {
 	tag    string
 	origin int
 	mtime  int64
+	text   string // the source text itself (the tag, plus the padding comment of a padded file)
 }
 
 type world struct {
@@ -304,7 +374,11 @@ type world struct {
 	dirty  map[string]bool // the cached entry of this name is not determined by the statement any more
 	ver    int
 	clock  int64
+	lo     int64 // timestamps handed out by oldL1: older than everything so far
 	kinds  map[string]int64
+	// labelling only: the content of the name changed in L1 without a newer timestamp and the loaders
+	// have not been read for the name since
+	quiet map[string]bool
 	// labelling only (real FileSystemLoader inside a ChainLoader): the file loader has located the name /
 	// the file was removed after that and the loaders have not been read for the name since
 	located, gone map[string]bool
@@ -337,6 +411,24 @@ func (w *world) mark(n string, ex *expect) {
 	}
 }
 
+// markQuiet labels the first lookup that has to read the loaders after the content of the name changed
+// in L1 without a newer timestamp, when L1 is the loader that has to serve it (a label of the kind
+// counters only; the demands are those of modelGet).
+func (w *world) markQuiet(n string, ex *expect) {
+	if !w.quiet[n] || ex.dontcare {
+		return
+	}
+	switch ex.kind {
+	case "reread-cache-off", "fresh":
+		delete(w.quiet, n)
+		if strings.HasSuffix(ex.tag, "@L1") {
+			ex.kind += "-first-call-after-change-without-newer-time"
+		}
+	case "reload-newer", "reload-newer-earlier-loader-wins":
+		delete(w.quiet, n) // a newer timestamp has come on top of it
+	}
+}
+
 func newWorld(v variant) *world { return newWorldOpt(v, true) }
 
 // newWorldOpt: without an engine the world is the reference machine alone (used to enumerate the
@@ -344,22 +436,21 @@ func newWorld(v variant) *world { return newWorldOpt(v, true) }
 func newWorldOpt(v variant, withEngine bool) *world {
 	st := newStats()
 	w := &world{v: v, st: st,
-		l1:    &tsLoader{src: map[string]string{}, mt: map[string]int64{}, st: st},
+		l1:    &tsLoader{src: map[string]string{}, mt: map[string]int64{}, pad: map[string]string{}, flen: map[string]int{}, st: st},
 		l2:    &plainLoader{src: map[string]string{"inc": incSource}, mt: map[string]int64{"inc": 10}, st: st},
-		cache: true, cached: map[string]entry{}, dirty: map[string]bool{}, clock: 10, kinds: map[string]int64{}}
+		cache: true, cached: map[string]entry{}, dirty: map[string]bool{}, clock: 10, lo: 10, kinds: map[string]int64{}}
 	if withEngine {
 		w.e = twig.New()
 	}
 	if v.realFS() && withEngine {
 		w.l1.fs = twig.NewFileSystemLoader([]string{scratchDir("tpl")})
-		w.l1.write("n1") // nothing in src yet: removes what an earlier history left behind
-		w.l1.write("n2")
 	}
 	for _, c := range v.startContents() {
 		w.ver++
 		if c.loader == 1 {
 			w.clock++
 			w.l1.src[c.name], w.l1.mt[c.name] = fmt.Sprintf("v%d@L1", w.ver), w.clock
+			w.setPad(c.name, false)
 			w.l1.write(c.name)
 		} else {
 			w.l2.src[c.name] = fmt.Sprintf("v%d@L2", w.ver)
@@ -369,8 +460,21 @@ func newWorldOpt(v variant, withEngine bool) *world {
 			}
 		}
 	}
+	if v.Start == "seededar" {
+		w.reload = true
+	}
 	if !withEngine {
 		return w
+	}
+	if w.reload {
+		w.e.SetAutoReload(true)
+	}
+	if v.realFS() {
+		for _, n := range [...]string{"n1", "n2"} { // removes what an earlier history left behind
+			if _, ok := w.l1.src[n]; !ok {
+				w.l1.write(n)
+			}
+		}
 	}
 	switch v.Arr {
 	case "chain", "chainfs":
@@ -396,11 +500,41 @@ func newWorldOpt(v variant, withEngine bool) *world {
 	return w
 }
 
+// setPad: in the "+x" variants with real files every file of L1 is padded with a twig comment to a
+// controlled length: the length it had before (fileLen when it is new), or — flip — the other of the
+// two lengths fileLen / fileLen+1. In all other variants there is no padding.
+const fileLen = 14
+
+func (w *world) setPad(n string, flip bool) {
+	if !w.v.ext() || !w.v.realFS() {
+		return
+	}
+	want := fileLen
+	if l, ok := w.l1.flen[n]; ok {
+		want = l
+	}
+	if flip {
+		want = 2*fileLen + 1 - want
+	}
+	k := want - len(w.l1.src[n]) - 4
+	if k < 0 {
+		panic("c15: version tag too long for the padded file")
+	}
+	w.l1.pad[n] = "{#" + strings.Repeat("-", k) + "#}"
+	w.l1.flen[n] = want
+}
+
 // cloneModel copies the reference state (no engine).
 func (w *world) cloneModel() *world {
-	c := &world{v: w.v, st: newStats(), cache: w.cache, reload: w.reload, ver: w.ver, clock: w.clock,
+	c := &world{v: w.v, st: newStats(), cache: w.cache, reload: w.reload, ver: w.ver, clock: w.clock, lo: w.lo,
 		cached: map[string]entry{}, dirty: map[string]bool{}, kinds: map[string]int64{}}
-	c.l1 = &tsLoader{src: map[string]string{}, mt: map[string]int64{}, st: c.st}
+	c.l1 = &tsLoader{src: map[string]string{}, mt: map[string]int64{}, pad: map[string]string{}, flen: map[string]int{}, st: c.st}
+	for k, x := range w.l1.pad {
+		c.l1.pad[k] = x
+	}
+	for k, x := range w.l1.flen {
+		c.l1.flen[k] = x
+	}
 	c.l2 = &plainLoader{src: map[string]string{}, mt: map[string]int64{}, st: c.st}
 	for k, x := range w.l1.src {
 		c.l1.src[k] = x
@@ -438,6 +572,16 @@ func (w *world) applicable(o op) bool {
 		return ok && w.v.l2ts()
 	case opRegister:
 		return w.cache
+	case opRegSame:
+		// identical to what the cache holds: there has to be something (and the cache has to be on)
+		_, ok := w.cached[o.n]
+		return ok && w.cache && w.v.ext()
+	case opEq1, opOld1:
+		_, ok := w.l1.src[o.n]
+		return ok && w.v.ext()
+	case opEqLen1:
+		_, ok := w.l1.src[o.n]
+		return ok && w.v.ext() && w.v.realFS()
 	}
 	return true
 }
@@ -447,19 +591,19 @@ func (w *world) fromLoaders(n string) (entry, bool) {
 	in1 := func() (entry, bool) {
 		s, ok := w.l1.src[n]
 		if ok && w.v.chain() {
-			return entry{s, orgChain, 0}, true
+			return entry{s, orgChain, 0, w.l1.content(n)}, true
 		}
-		return entry{s, orgL1, w.l1.mt[n]}, ok
+		return entry{s, orgL1, w.l1.mt[n], w.l1.content(n)}, ok
 	}
 	in2 := func() (entry, bool) {
 		s, ok := w.l2.src[n]
 		if ok && w.v.chain() {
-			return entry{s, orgChain, 0}, true
+			return entry{s, orgChain, 0, s}, true
 		}
 		if w.v.l2ts() {
-			return entry{s, orgL2, w.l2.mt[n]}, ok
+			return entry{s, orgL2, w.l2.mt[n], s}, ok
 		}
-		return entry{s, orgL2, 0}, ok
+		return entry{s, orgL2, 0, s}, ok
 	}
 	first, second := in1, in2
 	if w.v.l2first() {
@@ -487,6 +631,17 @@ func (w *world) mtimeNow(origin int, n string) (int64, bool) {
 	_, ok := w.l2.src[n]
 	return w.l2.mt[n], ok
 }
+
+// tagNow: the version the loader this origin stands for holds now.
+func (w *world) tagNow(origin int, n string) string {
+	if origin == orgL1 {
+		return w.l1.src[n]
+	}
+	return w.l2.src[n]
+}
+
+// sameText: the entry was registered with text identical to a loader's copy (regsame).
+func (c entry) sameText() bool { return c.origin == orgReg && !strings.HasSuffix(c.tag, "@R") }
 
 type expect struct {
 	kind     string // what the reference machine does: hit / stale / fresh / reload / reread / notfound / dontcare …
@@ -519,11 +674,22 @@ func (w *world) modelGet(n string) expect {
 			k := "hit"
 			if en, ok := w.fromLoaders(n); c.origin != orgReg && (!ok || en.tag != c.tag) {
 				k = "stale-kept-reload-off"
+			} else if c.sameText() {
+				k = "hit-registered-same-text-reload-off"
 			}
 			return expect{kind: k, tag: c.tag, found: true}
 		}
 		switch {
 		case c.origin == orgReg:
+			// "Load and Render use the source most recently registered under a name" — whatever the text
+			// that was registered, and whatever the loaders do afterwards
+			if c.sameText() {
+				k := "hit-registered-same-text"
+				if en, ok := w.fromLoaders(n); !ok || en.tag != c.tag {
+					k = "hit-registered-same-text-loaders-moved-on"
+				}
+				return expect{kind: k, tag: c.tag, found: true}
+			}
 			return expect{kind: "hit-registered", tag: c.tag, found: true}
 		case w.timed(c.origin): // cached from a timestamp-aware loader
 			mt, present := w.mtimeNow(c.origin, n)
@@ -540,6 +706,13 @@ func (w *world) modelGet(n string) expect {
 					return expect{kind: "reload-newer-earlier-loader-wins", tag: en.tag, found: true}
 				}
 				return expect{kind: "reload-newer", tag: en.tag, found: true}
+			}
+			if w.tagNow(c.origin, n) != c.tag {
+				// the content changed where it came from, but the timestamp there is not newer than the
+				// one recorded (equal or older; "+x" alphabet only): "a change … is visible to the next
+				// call" has nothing to go by — not determined by the statement
+				w.dirty[n] = true
+				return expect{kind: "dontcare-changed-without-newer-time", dontcare: true}
 			}
 			if en, _ := w.fromLoaders(n); en.origin != c.origin {
 				// unchanged where it came from, but a loader registered earlier has gained the name:
@@ -606,6 +779,7 @@ func (w *world) apply(o op) string {
 			return ""
 		}
 		w.mark(o.n, &ex)
+		w.markQuiet(o.n, &ex)
 		out, err := w.get(o)
 		w.kinds[ex.kind]++
 		if ex.dontcare {
@@ -624,6 +798,7 @@ func (w *world) apply(o op) string {
 		loads0, cons0 := w.st.loads["n1"], w.st.consult["n1"]
 		if exOuter.found {
 			w.mark("n1", &ex)
+			w.markQuiet("n1", &ex)
 		}
 		out, err := w.get(o)
 		w.kinds["nested-"+ex.kind]++
@@ -634,18 +809,26 @@ func (w *world) apply(o op) string {
 			ex.tag = "<" + ex.tag + ">"
 		}
 		return w.compare(o, "n1", ex, out, "(through the include in \"inc\") ", err, "", loads0, cons0)
-	case opRegister:
-		w.ver++
-		src := fmt.Sprintf("v%d@R", w.ver)
+	case opRegister, opRegSame:
+		var src, tag string
+		if o.k == opRegister {
+			w.ver++
+			src = fmt.Sprintf("v%d@R", w.ver)
+			tag = src
+		} else {
+			// byte for byte the text the reference cache holds for the name (from a loader — including the
+			// padding comment of a padded file — or from an earlier registration)
+			src, tag = w.cached[o.n].text, w.cached[o.n].tag
+		}
 		var err error
 		switch {
 		case w.e == nil:
-		case w.v.Reg == "tpl":
+		case w.v.api() == "tpl":
 			var t *twig.Template
 			if t, err = w.e.ParseTemplate(src); err == nil {
 				w.e.RegisterTemplate(o.n, t)
 			}
-		case w.v.Reg == "cmp":
+		case w.v.api() == "cmp":
 			e2 := twig.New()
 			if err = e2.RegisterString(o.n, src); err == nil {
 				var c *twig.CompiledTemplate
@@ -659,14 +842,29 @@ func (w *world) apply(o op) string {
 		if err != nil {
 			return fmt.Sprintf("%v failed: %v", o, err)
 		}
-		w.cached[o.n] = entry{src, orgReg, 0}
+		w.cached[o.n] = entry{tag, orgReg, 0, src}
 		delete(w.dirty, o.n)
 	case opMod1:
 		delete(w.gone, o.n) // the file is there again
 		w.ver++
 		w.clock++
 		w.l1.src[o.n], w.l1.mt[o.n] = fmt.Sprintf("v%d@L1", w.ver), w.clock
+		w.setPad(o.n, false)
 		w.l1.write(o.n)
+	case opEq1, opEqLen1, opOld1:
+		// a content change that does not come with a newer timestamp
+		w.ver++
+		w.l1.src[o.n] = fmt.Sprintf("v%d@L1", w.ver)
+		if o.k == opOld1 {
+			w.lo--
+			w.l1.mt[o.n] = w.lo
+		}
+		w.setPad(o.n, o.k == opEqLen1)
+		w.l1.write(o.n)
+		if w.quiet == nil {
+			w.quiet = map[string]bool{}
+		}
+		w.quiet[o.n] = true
 	case opMod2:
 		w.ver++
 		w.l2.src[o.n] = fmt.Sprintf("v%d@L2", w.ver)
@@ -691,6 +889,9 @@ func (w *world) apply(o op) string {
 		}
 		delete(w.l1.src, o.n)
 		delete(w.l1.mt, o.n)
+		delete(w.l1.pad, o.n)
+		delete(w.l1.flen, o.n)
+		delete(w.quiet, o.n)
 		w.l1.write(o.n)
 	case opDel2:
 		delete(w.l2.src, o.n)
@@ -830,6 +1031,9 @@ func (w *world) canon() string {
 				b = append(b, 'C')
 			} else {
 				b = append(b, 'c', byte('0'+vrank(c.tag)), byte('0'+c.origin))
+				if c.sameText() { // registered with a loader's text: which loader's
+					b = append(b, 's', c.tag[len(c.tag)-1])
+				}
 				if w.timed(c.origin) {
 					b = append(b, '@', byte('0'+trank(c.mtime)))
 				}
@@ -874,6 +1078,17 @@ func (r *runStats) add(w *world, n int) {
 // applicableSeq decides applicability of every operation of a history from the harness state alone
 // (loader contents and the cache switch), without an engine.
 func applicableSeq(v variant, h []op) bool {
+	if v.ext() {
+		// regsame needs to know whether the reference cache holds the name: run the reference machine
+		w := newWorldOpt(v, false)
+		for _, o := range h {
+			if !w.applicable(o) {
+				return false
+			}
+			w.apply(o)
+		}
+		return true
+	}
 	l1 := map[string]bool{}
 	l2 := map[string]bool{}
 	for _, c := range v.startContents() {
@@ -962,7 +1177,7 @@ func histKey(h []op) string {
 
 func hasReg(h []op) bool {
 	for _, o := range h {
-		if o.k == opRegister {
+		if o.k == opRegister || o.k == opRegSame {
 			return true
 		}
 	}
@@ -994,7 +1209,7 @@ func subtree(v variant, prefix []op, depth int) *vlib.Outcome {
 	var rec func(target int) bool
 	rec = func(target int) bool {
 		if len(h) == target {
-			if v.Reg != "str" && !hasReg(h) {
+			if v.api() != "str" && !hasReg(h) {
 				return true // identical to the "str" variant
 			}
 			w, ok, s := replay(v, h)
@@ -1041,7 +1256,8 @@ func subtree(v variant, prefix []op, depth int) *vlib.Outcome {
 
 // closure enumerates the reference states reachable from the start state breadth-first (reference
 // machine only, no engine) and returns the shortest history of each, in BFS order.
-func closure(v variant, maxStates int) (hists [][]op, closed bool) {
+// maxDepth > 0: only states whose shortest history has at most that many operations.
+func closure(v variant, maxStates, maxDepth int) (hists [][]op, closed bool) {
 	start := newWorldOpt(v, false)
 	seen := map[string]bool{start.canon(): true}
 	hists = [][]op{nil}
@@ -1052,6 +1268,13 @@ func closure(v variant, maxStates int) (hists [][]op, closed bool) {
 		frontier[i] = nil
 		if i%5000 == 4999 {
 			heartbeat()
+		}
+		if i%500 == 499 && pastDeadline() {
+			return nil, false // the cases of these states would not run any more
+		}
+		if maxDepth > 0 && len(hists[i]) >= maxDepth {
+			closed = false
+			continue
 		}
 		for _, a := range alphabetOf(v) {
 			if !w.applicable(a) {
@@ -1083,14 +1306,24 @@ func heartbeat() {
 	}
 }
 
+// pastDeadline: the framework notices its deadline only between cases; the enumeration of the reference
+// states (seconds per worker, much more on an overloaded machine) looks at the clock itself so that a
+// run that is over does not go on enumerating. Not an oracle: it only ends the run.
+var runEnds time.Time
+
+func pastDeadline() bool { return !runEnds.IsZero() && time.Now().After(runEnds) }
+
 var closureCache = map[string][][]op{}
 var closureClosed = map[string]bool{}
 
-func closureOf(v variant, maxStates int) ([][]op, bool) {
+func closureOf(v variant, maxStates, maxDepth int) ([][]op, bool) {
 	// the reference machine does not depend on the registration API, and the "builtin" and "fs"
 	// arrangements have the reference machine of "sep"
 	// (and "revfs" that of "rev", "chainfs" that of "chain", "chainfsrev" that of "chainrev")
 	mv := variant{Arr: "sep", Start: v.Start, Reg: "str"}
+	if v.ext() {
+		mv.Reg = "str+x" // the extended alphabet has more reference states
+	}
 	switch {
 	case v.chain() && v.l2first():
 		mv.Arr = "chainrev"
@@ -1101,11 +1334,11 @@ func closureOf(v variant, maxStates int) ([][]op, bool) {
 	case v.l2ts():
 		mv.Arr = "ts2"
 	}
-	key := fmt.Sprintf("%s|%d", mv, maxStates)
+	key := fmt.Sprintf("%s|%d|%d", mv, maxStates, maxDepth)
 	if h, ok := closureCache[key]; ok {
 		return h, closureClosed[key]
 	}
-	h, c := closure(mv, maxStates)
+	h, c := closure(mv, maxStates, maxDepth)
 	closureCache[key], closureClosed[key] = h, c
 	return h, c
 }
@@ -1185,6 +1418,17 @@ func plans(thorough bool) []plan {
 		{"chainfsrev", "late", "str"}, {"chainfsrev", "seeded", "str"},
 		{"chainrev", "late", "str"},
 	}
+	// the extended alphabet ("+x": registration of text identical to the cached one, content changes in
+	// L1 with an equal / older timestamp, with real files of the same / a different length): in memory
+	// with the three registration APIs, behind a ChainLoader, and with the real FileSystemLoader alone
+	// and in front of L2 inside a ChainLoader
+	extQuick := []variant{
+		{"sep", "seeded", "str+x"}, {"sep", "seeded", "tpl+x"},
+		{"fs", "seeded", "str+x"}, {"chainfs", "seeded", "str+x"},
+		// auto-reload already on at the start: registration of identical text, then the loader changes or
+		// loses the name (newer / equal / older timestamp), then the lookup — four operations
+		{"sep", "seededar", "str+x"},
+	}
 	if thorough {
 		for _, v := range all {
 			ps = append(ps, plan{v, 5, 3, false})
@@ -1201,6 +1445,16 @@ func plans(thorough bool) []plan {
 				ps = append(ps, plan{v, 4, 2, false})
 			}
 		}
+		for _, v := range extQuick[:3] {
+			ps = append(ps, plan{v, 5, 3, false})
+		}
+		for _, v := range []variant{
+			extQuick[3], extQuick[4],
+			{"sep", "empty", "str+x"}, {"sep", "empty", "tpl+x"}, {"sep", "seeded", "cmp+x"}, {"sep", "empty", "cmp+x"},
+			{"chain", "seeded", "str+x"}, {"fs", "empty", "str+x"}, {"chainfs", "empty", "str+x"},
+		} {
+			ps = append(ps, plan{v, 4, 2, false})
+		}
 		ps = append(ps, plan{variant{"sep", "seeded", "str"}, 6, 4, true}, plan{variant{"sep", "empty", "str"}, 6, 4, true})
 	} else {
 		for _, v := range all {
@@ -1214,6 +1468,9 @@ func plans(thorough bool) []plan {
 		for _, v := range inChain {
 			ps = append(ps, plan{v, 4, 2, false})
 		}
+		for _, v := range extQuick {
+			ps = append(ps, plan{v, 4, 2, false})
+		}
 		// the one depth-5 pass (two fifths of all histories of the tier) comes after phase B, so that a
 		// deadline on an overloaded machine cuts it and not the smaller families
 		ps = append(ps, plan{variant{"sep", "seeded", "str"}, 5, 3, true})
@@ -1224,40 +1481,55 @@ func plans(thorough bool) []plan {
 type bfsPlan struct {
 	v         variant
 	maxStates int
+	maxDepth  int // > 0: every state within that many operations of the start state (and no others)
 }
 
 func bfsPlans(thorough bool) []bfsPlan {
 	const all = 1 << 30
 	if thorough {
 		return []bfsPlan{
-			{variant{"sep", "empty", "str"}, all},
-			{variant{"chain", "empty", "str"}, all},
-			{variant{"sep", "empty", "tpl"}, all},
-			{variant{"builtin", "empty", "cmp"}, all},
-			{variant{"fs", "empty", "str"}, 20000},
-			{variant{"rev", "empty", "str"}, all},
-			{variant{"ts2", "late", "str"}, 100000},
-			{variant{"revfs", "late", "str"}, 10000},
-			{variant{"chainfs", "seeded", "str"}, 20000},
-			{variant{"chainfsrev", "late", "str"}, 10000},
+			{variant{"sep", "empty", "str"}, all, 0},
+			{variant{"chain", "empty", "str"}, all, 0},
+			{variant{"sep", "empty", "tpl"}, all, 0},
+			{variant{"builtin", "empty", "cmp"}, all, 0},
+			{variant{"fs", "empty", "str"}, 20000, 0},
+			{variant{"rev", "empty", "str"}, all, 0},
+			{variant{"ts2", "late", "str"}, 100000, 0},
+			{variant{"revfs", "late", "str"}, 10000, 0},
+			{variant{"chainfs", "seeded", "str"}, 20000, 0},
+			{variant{"chainfsrev", "late", "str"}, 10000, 0},
+			// the extended alphabet
+			{variant{"sep", "seeded", "str+x"}, 60000, 0},
+			{variant{"sep", "seeded", "tpl+x"}, 20000, 0},
+			{variant{"sep", "empty", "cmp+x"}, 20000, 0},
+			{variant{"chain", "seeded", "str+x"}, 20000, 0},
+			{variant{"fs", "seeded", "str+x"}, 10000, 0},
+			{variant{"chainfs", "seeded", "str+x"}, 10000, 0},
 		}
 	}
 	return []bfsPlan{
-		{variant{"sep", "empty", "str"}, 4000},
-		{variant{"chain", "empty", "str"}, 4000},
-		{variant{"builtin", "seeded", "cmp"}, 1500},
-		{variant{"fs", "seeded", "str"}, 600},
+		{variant{"sep", "empty", "str"}, 4000, 0},
+		{variant{"chain", "empty", "str"}, 4000, 0},
+		{variant{"builtin", "seeded", "cmp"}, 1500, 0},
+		{variant{"fs", "seeded", "str"}, 600, 0},
 		// every state within four operations of the start state (2 269 / 3 015) and then some
-		{variant{"rev", "late", "str"}, 2400},
-		{variant{"ts2", "late", "str"}, 3200},
-		{variant{"revfs", "late", "str"}, 600},
+		{variant{"rev", "late", "str"}, 2400, 0},
+		{variant{"ts2", "late", "str"}, 3200, 0},
+		{variant{"revfs", "late", "str"}, 600, 0},
 		// every state within four operations of the seeded start state (2 408) and then some
-		{variant{"chainfs", "seeded", "str"}, 2500},
-		{variant{"chainfsrev", "late", "str"}, 600},
+		{variant{"chainfs", "seeded", "str"}, 2500, 0},
+		{variant{"chainfsrev", "late", "str"}, 600, 0},
+		// the extended alphabet: every state within four (three) operations of the seeded start state
+		{variant{"sep", "seeded", "str+x"}, all, 4},
+		{variant{"sep", "seeded", "tpl+x"}, all, 4},
+		{variant{"fs", "seeded", "str+x"}, all, 3},
+		{variant{"chainfs", "seeded", "str+x"}, all, 3},
 	}
 }
 
 const blockSize = 32
+
+const quickDeadline, thoroughDeadline = 150, 840 // seconds
 
 // only: C15_ONLY=chainfs,chainfsrev restricts a run to the named loader arrangements (a debugging aid:
 // the case keys are unchanged, the run is simply a part of the full enumeration).
@@ -1267,7 +1539,7 @@ func only(v variant) bool {
 		return true
 	}
 	for _, a := range strings.Split(sel, ",") {
-		if a == v.Arr {
+		if a == v.Arr || (a == "+x" && v.ext()) {
 			return true
 		}
 	}
@@ -1279,7 +1551,8 @@ func main() {
 		ID:    "C15",
 		Level: "model_checking",
 		Rule: "phase A: every history over the 19-letter alphabet (load/render/render-through-include, register, modify in L1/L2, touch, delete, the six configuration switches; " +
-			"two names; a 20th letter, touch in L2, where L2 reports timestamps too) up to the depth bound, for each loader arrangement (timestamp-aware L1 then plain L2 / ChainLoader / followed by empty built-in loaders / real FileSystemLoader with controlled modification times / " +
+			"two names; a 20th letter, touch in L2, where L2 reports timestamps too; in the \"+x\" variants three or four more letters: registration of text IDENTICAL to what the cache holds for the name, " +
+			"new content in L1 with the SAME timestamp, with an OLDER timestamp, and — real files — with the same timestamp and a DIFFERENT length, all other rewrites keeping the file length) up to the depth bound, for each loader arrangement (timestamp-aware L1 then plain L2 / ChainLoader / followed by empty built-in loaders / real FileSystemLoader with controlled modification times / " +
 			"plain L2 registered BEFORE the timestamp-aware L1, in memory and as a real FileSystemLoader / two timestamp-aware loaders / " +
 			"a real FileSystemLoader INSIDE a ChainLoader in front of, and behind, the in-memory loader that holds the same names (delL1 removes the file, modL1 re-creates it)), start state (seeded / empty loaders / only the loader registered last has the name) and registration API " +
 			"(RegisterString / RegisterTemplate / RegisterCompiledTemplate), each replayed on a fresh engine and compared step by step with the reference machine; " +
@@ -1288,11 +1561,12 @@ func main() {
 		Assumptions: []string{
 			"histories longer than the depth bound are covered only by phase B, which assumes that the engine's cache state is a function of the reference state and the cache listing",
 			"left open by the statement, not demanded: registration while the cache is off; Load of a registered name while the cache is off; with auto-reload on, an entry cached from a loader without timestamps (L2, ChainLoader) whose source changed or that an earlier loader now shadows, and an entry cached from a timestamp-aware loader that is unchanged there while an earlier loader has gained the name (as soon as that loader reports a strictly newer time or loses the name, the reload in registration order is demanded)",
-			"timestamps only move forward and every content change comes with a newer timestamp (a change without a newer timestamp is unobservable by design)",
+			"outside the \"+x\" variants timestamps only move forward and every content change comes with a newer timestamp; in the \"+x\" variants a content change with an equal or older timestamp is demanded to be served where the statement determines it (cache off, first load, auto-reload off: the entry as it was, registered name: the registration) and left open for an auto-reload lookup of an entry cached from that loader (nothing to go by)",
+			"the reference states do not include what a loader may remember about files it has read: such defects are reached by phase A (every history up to the depth bound), not by phase B",
 			"two names plus one fixed including template, two loaders (plus empty built-in loaders in one arrangement); one ChainLoader of two loaders, in both orders",
 		},
-		QuickDeadline:    150,
-		ThoroughDeadline: 840,
+		QuickDeadline:    quickDeadline,
+		ThoroughDeadline: thoroughDeadline,
 		Run:              run,
 		Extra: func(tier string, cov map[string]interface{}) {
 			cov["states"] = cov["bfs_states"]
@@ -1307,6 +1581,14 @@ func main() {
 }
 
 func run(t *vlib.T) {
+	d := quickDeadline
+	if t.Thorough() {
+		d = thoroughDeadline
+	}
+	if n, err := strconv.Atoi(os.Getenv("VERIF_DEADLINE_S")); err == nil {
+		d = n
+	}
+	runEnds = time.Now().Add(time.Duration(d) * time.Second)
 	defer func() {
 		if scratch != "" {
 			os.RemoveAll(scratch)
@@ -1321,8 +1603,13 @@ func run(t *vlib.T) {
 			if t.Stopped() {
 				return // past the deadline: do not enumerate reference states for cases that will not run
 			}
-			hists, closed := closureOf(bp.v, bp.maxStates)
-			if closed {
+			hists, closed := closureOf(bp.v, bp.maxStates, bp.maxDepth)
+			if hists == nil {
+				return // past the deadline
+			}
+			if bp.maxDepth > 0 && len(hists) < bp.maxStates {
+				t.Note(fmt.Sprintf("phase B %s: all %d reference states within %d operations of the start state", bp.v, len(hists), bp.maxDepth))
+			} else if closed {
 				t.Note(fmt.Sprintf("phase B %s: all %d reference states reached (closure)", bp.v, len(hists)))
 			} else {
 				t.Note(fmt.Sprintf("phase B %s: the first %d reference states in breadth-first order (cap), longest shortest history %d", bp.v, len(hists), len(hists[len(hists)-1])))
